@@ -2315,6 +2315,11 @@ mut("ok-fetch-update-try-increment", "benign", [], "try_increment_strong written
 mut("fetch-update-token-missing", "break", ["C01", "C05"], "the same, the closure adding 1 even from zero",
     [ed(U, '        let mut old = State::from_raw(self.state.load(Ordering::SeqCst));\n        loop {\n            if old.destructed() {\n                return false;\n            }\n            let new = if old.strong() == 0 {\n                old.add_strong(2)\n            } else {\n                old.add_strong(1)\n            };\n            match self.state.compare_exchange(\n                old.as_raw(),\n                new.as_raw(),\n                Ordering::SeqCst,\n                Ordering::SeqCst,\n            ) {\n                Ok(_) => return true,\n                Err(curr) => old = State::from_raw(curr),\n            }\n        }', '        self.state\n            .fetch_update(Ordering::SeqCst, Ordering::SeqCst, |raw| {\n                let old = State::from_raw(raw);\n                if old.destructed() {\n                    return None;\n                }\n                Some(old.add_strong(1).as_raw())\n            })\n            .is_ok()')], ["CW-TOKEN"])
 
+mut("tagged-as-ref-packed-null-test", "break", ["C11"], "Tagged::as_ref tests the packed word for null: a tagged or stamped null is dereferenced",
+    [ed("src/ebr_impl/pointers.rs", """    pub unsafe fn as_ref<'g>(&self) -> Option<&'g T> {
+        if self.is_null() {""", """    pub unsafe fn as_ref<'g>(&self) -> Option<&'g T> {
+        if self.ptr.is_null() {""")], ["BIT-DELEGATION"])
+
 # behaviour-preserving refactorings written by sub-agents told to keep every interleaving's behaviour (selftest/refactors/)
 for f in sorted(glob.glob(os.path.join(HERE, "refactors", "*.diff"))):
     name = os.path.basename(f)[:-5]
